@@ -431,6 +431,29 @@ def rule_r5(repo, run):
               "options %s are integers in the YAML file, but a value given with --option stays a string: "
               "`--option F_line_length=100` ends in TypeError ('>' not supported between int and str) where the YAML spelling "
               "works" % sorted(ints)[:4], m.loc(f))
+    # a key given in both places: the command line wins
+    merges = []
+    for node in ast.walk(f):
+        if isinstance(node, ast.Call) and isinstance(node.func, ast.Attribute) and node.func.attr == "update" and node.args and \
+                "options" in m.seg(node.func.value) and "allinput" in m.seg(node.func.value):
+            merges.append((node, "cmd-last" if pyflow.is_name(node.args[0], "cmdoptions") else "other"))
+        if isinstance(node, ast.Call) and isinstance(node.func, ast.Attribute) and node.func.attr == "update" and \
+                pyflow.is_name(node.func.value, "cmdoptions") and node.args:
+            merges.append((node, "yaml-last"))
+        if isinstance(node, ast.Call) and pyflow.is_name(node.func, "dict") and node.args and any(k.arg is None for k in node.keywords):
+            first = node.args[0]
+            star = [k.value for k in node.keywords if k.arg is None][-1]
+            if pyflow.is_name(first, "cmdoptions") or pyflow.is_name(star, "cmdoptions"):
+                merges.append((node, "cmd-last" if pyflow.is_name(star, "cmdoptions") else "yaml-last"))
+        if isinstance(node, ast.Dict) and any(k is None for k in node.keys):
+            stars = [v for k, v in zip(node.keys, node.values) if k is None]
+            if any(pyflow.is_name(v, "cmdoptions") for v in stars):
+                merges.append((node, "cmd-last" if pyflow.is_name(stars[-1], "cmdoptions") else "yaml-last"))
+    kinds = [k for n_, k in merges]
+    run.check(R, "main.main_with_args:command-line-wins", "cmd-last" in kinds and "yaml-last" not in kinds,
+              "where the YAML file has an options group the two are merged as %s: a value given with --option must replace the "
+              "one of the file (`--option F_line_length=60` against `F_line_length: 120` in the file)"
+              % (kinds or "nothing recognisable"), m.loc(merges[0][0]) if merges else m.loc(f))
     # command line merged after the files
     lines = {}
     for node in ast.walk(f):
@@ -497,7 +520,7 @@ def rule_x(repo, run):
                            "promoted bottom-up through every container level (C15.R6)")
     from checks import c15
     from sa.report import import_rules
-    import_rules(run, R, c15, repo, {"C15.R6"}, only=lambda c: c.startswith("ast.PromoteWrap"))
+    import_rules(run, R, c15, repo, {"C15.R6"}, only=lambda c: c.startswith("ast.PromoteWrap") or c.startswith("ast.WrapFlags"))
     # ... and the declaration's own options are merged before its flags are read (C15.R8)
     import_rules(run, R, c15, repo, {"C15.R8"}, only=lambda c: c.endswith(":wrap-after-options"))
 
@@ -627,6 +650,29 @@ def rule_r11(repo, run):
 
 
 
+def rule_r12(repo, run):
+    R = run.rule("C14.R12", "template_suffix may be set in the format group of the function, of an instantiation or of any container: "
+                            "the default (`_<type>` / `_<n>`) is computed only when no level has set it, so the test reads the "
+                            "field through the scope chain")
+    gm = repo.module("generate")
+    n = 0
+    for q in ("GenFunctions.template_function", "GenFunctions.instantiate_classes"):
+        fn = gm.func(q)
+        for i in ast.walk(fn):
+            if not isinstance(i, ast.If):
+                continue
+            t = ast.unparse(i.test)
+            if "template_suffix" not in t:
+                continue
+            n += 1
+            local_only = "inlocal(" in t or ".__dict__" in t
+            run.check(R, "generate.%s:template_suffix:%s" % (q, re.sub(r"\s+", "", t)[:40]), not local_only,
+                      "`%s` only sees a template_suffix stored on this very scope: one set on the enclosing block, class, namespace "
+                      "or library is replaced by the type-derived default, while the same field on the function is honoured" % t,
+                      gm.loc(i))
+    run.floor(R, "tests of template_suffix", n, 2)
+
+
 def run(repo, run, tier):
     rule_r1(repo, run)
     rule_r2(repo, run)
@@ -639,3 +685,4 @@ def run(repo, run, tier):
     rule_r9(repo, run)
     rule_r10(repo, run)
     rule_r11(repo, run)
+    rule_r12(repo, run)
